@@ -25,7 +25,6 @@
 (* reader reads ReadAt(hist, k, visible) under every physical arrangement. *)
 (***************************************************************************)
 EXTENDS Retention, TLC
-LOCAL SeqExt == INSTANCE SequencesExt
 
 CONSTANTS
     Keys,          \* user keys
@@ -124,9 +123,12 @@ Flush ==
 
 (* One compaction round out of level src (0 = all level-0 tables) into src+1, or within the
    last level.  Everything of the target level takes part (tiny key space: ranges overlap). *)
-KeyList(S, k) ==
-    \* newest first (SetToSortSeq: enumerating [1..n -> vs] is n^n - 8 versions of one key already exceed TLC's set limit)
-    SeqExt!SetToSortSeq(Strip(OfKey(S, k)), LAMBDA a, b : a.seq > b.seq)
+RECURSIVE NewestFirst(_)
+\* (selection sort: enumerating [1..n -> vs] is n^n - 8 versions of one key already exceed TLC's set limit)
+NewestFirst(vs) ==
+    IF vs = {} THEN <<>>
+    ELSE LET m == CHOOSE x \in vs : \A y \in vs : x.seq >= y.seq IN <<m>> \o NewestFirst(vs \ {m})
+KeyList(S, k) == NewestFirst(Strip(OfKey(S, k)))
 
 Compacted(S, bottom) ==
     UNION { { [k |-> k, seq |-> v.seq, kind |-> v.kind, win |-> v.win] :
